@@ -51,6 +51,7 @@ func C20(c *Ctx) {
 	r.Rule("R20.1", "delivery guard: every send of a commit event on commitC (raft mint via publishEntries, raft snapshot recovery, solo proposal loop) lies behind the edge height == lastExec+1 and is followed, before the next possible send, by the update of lastExec.")
 	r.Rule("R20.2", "skip rule: in publishEntries a block is minted only when the recorded applied index is below the entry's index; the durable applied index is written only by reportState, which is reachable only from the stateC receive of the raft main loop (after the executor reported the block persisted).")
 	r.Rule("R20.3", "leader reset: on justElected the mempool's batch sequence number is reset to lastExec in the Ready handling; every batch-generation site of the raft node is behind an isLeader() test.")
+	r.Rule("R20.4", "applied-index value: the index persisted by reportState is the one looked up in blockAppliedIndex under the reported state's height, and publishEntries records (batch height -> index of the entry that carried it).")
 	r.Rule("R20.5", "pool confinement: the transaction pool's unsynchronised methods (GetTransaction, ProcessTransactions, GenerateBlock, CommitTransactions, ...) are called from exactly one goroutine root per ordering node (the main event loop).")
 	r.Rule("R20.6", "commit notifications: every chain-state report received by an ordering node reaches mempool.CommitTransactions on every path (raft reportState and the solo loop agree).")
 	r.NotDecided = append(r.NotDecided, "Raft safety (dependency), message faults and crash points, identical content across replicas, the arithmetic of sync ranges (calcRangeHeight), whether generated batches can be nil (value-level)")
@@ -325,7 +326,57 @@ func C20(c *Ctx) {
 			call, ok := in.(ssa.CallInstruction)
 			return ok && core.CalleeObj(call) != nil && core.CalleeObj(call).Name() == "CommitTransactions"
 		}
-		r.Check(len(sites(rsf, isCommit)) > 0, "R20.6", "etcdraft.reportState: commits to the pool", c.P.Pos(rsf.Pos()), "CommitTransactions(state) called (after the applied index was found)", "the raft node does not forward chain-state reports to the pool")
+		rs := core.Reach([]core.Point{core.EntryOf(rsf)}, isCommit, nil)
+		var bad *ssa.Return
+		for _, ret := range core.Returns(rsf) {
+			if rs.Has(ret) {
+				bad = ret
+			}
+		}
+		if len(sites(rsf, isCommit)) == 0 {
+			r.Bad("R20.6", "etcdraft.reportState: commits to the pool", c.P.Pos(rsf.Pos()), "the raft node does not forward chain-state reports to the pool")
+		} else if bad != nil {
+			r.Bad("R20.6", "etcdraft.reportState: commits to the pool", c.P.Pos(bad.Pos()), "reportState can return (line "+c.P.Pos(bad.Pos())+") without CommitTransactions(state): the transactions of a block that was executed without a recorded raft entry (state sync after a snapshot) stay in the pool and are proposed again when this replica leads; path: "+rs.Witness(c.P, bad))
+		} else {
+			r.OK("R20.6", "etcdraft.reportState: commits to the pool", c.P.Pos(rsf.Pos()), "every path of reportState passes CommitTransactions(state)")
+		}
+		// R20.4: the persisted index is the one recorded for the reported height
+		n4 := 0
+		for _, call := range core.Calls(rsf) {
+			if !strings.HasSuffix(core.CalleeName(call), ".writeAppliedIndex") {
+				continue
+			}
+			n4++
+			arg := core.Arg(call, 0)
+			fromLoad := core.Mentions(arg, func(v ssa.Value) bool {
+				cc, ok := v.(*ssa.Call)
+				if !ok || core.CalleeName(cc) != "(*sync.Map).Load" || !core.Mentions(cc.Call.Args[0], fieldNamed("blockAppliedIndex")) {
+					return false
+				}
+				return core.Mentions(cc.Call.Args[1], func(w ssa.Value) bool {
+					_, fld, base, ok := core.FieldOf(w)
+					return ok && fld == "Height" && len(rsf.Params) > 1 && core.Strip(base) == ssa.Value(rsf.Params[1])
+				})
+			})
+			r.Check(fromLoad, "R20.4", "reportState: persisted index = blockAppliedIndex[state.Height]", c.P.Pos(call.Pos()), "writeAppliedIndex(blockAppliedIndex.Load(state.Height))",
+				"the applied index written to the order DB is not the raft index recorded for the reported (persisted) height: if it is the index of a later, not yet executed block, a restart skips that block's log entry (publishEntries treats it as applied) and the block is never delivered")
+		}
+		r.Floor("R20.4", "durable applied-index writes in reportState", n4, 1)
+		// and the recorded pair is (minted height, entry index)
+		if pe := c.fn("R20.4", "pkg/order/etcdraft.(*Node).publishEntries"); pe != nil {
+			n := 0
+			for _, call := range core.Calls(pe) {
+				if core.CalleeName(call) != "(*sync.Map).Store" || !core.Mentions(call.Common().Args[0], fieldNamed("blockAppliedIndex")) {
+					continue
+				}
+				n++
+				k, v := call.Common().Args[1], call.Common().Args[2]
+				okK := core.Mentions(k, func(w ssa.Value) bool { _, fld, _, ok := core.FieldOf(w); return ok && fld == "Height" })
+				okV := core.Mentions(v, func(w ssa.Value) bool { _, fld, _, ok := core.FieldOf(w); return ok && fld == "Index" })
+				r.Check(okK && okV, "R20.4", "publishEntries: records (batch height -> entry index)", c.P.Pos(call.Pos()), "blockAppliedIndex.Store(requestBatch.Height, ents[i].Index)", "the height -> raft index table is filled with something else than (minted height, its entry's index)")
+			}
+			r.Floor("R20.4", "applied-index table writes in publishEntries", n, 1)
+		}
 	}
 	if sl := c.fn("R20.6", "pkg/order/solo.(*Node).listenReadyBlock"); sl != nil {
 		isCommit := func(in ssa.Instruction) bool {
